@@ -233,8 +233,10 @@ def coq_make(targets, keep_going=False, timeout=3000):
     with open(os.path.join(COQ, '.build.lock'), 'w') as lk:
         fcntl.flock(lk, fcntl.LOCK_EX)
         coq_configure()
-        cmd = ['timeout', str(timeout), 'make', f'-j{NPROC}'] + (['-k'] if keep_going else []) + targets
-        return sh(cmd, cwd=COQ, timeout=timeout + 60)
+        # address-space limit per coqc (a runaway vm_compute once took 48 GB and blocked every check)
+        cmd = ('ulimit -v 14000000; exec timeout %d make -j%d %s%s'
+               % (timeout, NPROC, '-k ' if keep_going else '', ' '.join(targets)))
+        return sh(['bash', '-c', cmd], cwd=COQ, timeout=timeout + 60)
 
 
 def coq_deps(rel):
